@@ -135,6 +135,26 @@ where
         }
     }
     let subst = ms2.substitute_raw_pkh(&map);
+    // putting the keys back (what the PSBT finalizer does with a decoded script) must not change
+    // the script, nor the label
+    match guarded(std::panic::AssertUnwindSafe(|| (subst.encode().to_bytes(), subst.ty))) {
+        Ok((b2, t2)) => {
+            if b2 != bytes {
+                rep.violation(case, format!("C04:substitute_raw_pkh-changes-script:{}", cx.name()), format!("decode(encode(x)).substitute_raw_pkh(keys) encodes to {} instead of {} for x = {} [{}]", hex(&b2), hex(&bytes), s, cx.name()));
+            } else if t2 != ms.ty {
+                rep.violation(case, format!("C04:substitute_raw_pkh-changes-type:{}", cx.name()), format!("type {:?} vs {:?} for x = {}", t2, ms.ty, s));
+            } else {
+                rep.count("substitute_raw_pkh-preserves-script");
+            }
+        }
+        Err(m) => rep.violation(case, format!("C04:panic:substitute_raw_pkh:{}", norm_loc(&last_panic_loc())), format!("{} on {}", m, s)),
+    }
+    // ... also with an empty key map (nothing to substitute)
+    if let Ok(b3) = guarded(std::panic::AssertUnwindSafe(|| ms2.substitute_raw_pkh(&BTreeMap::new()).encode().to_bytes())) {
+        if b3 != bytes {
+            rep.violation(case, format!("C04:substitute_raw_pkh-changes-script:{}", cx.name()), format!("substitute_raw_pkh(empty map) changes the script of {}: {} vs {}", s, hex(&b3), hex(&bytes)));
+        }
+    }
     let norm = normalise(frag, world).to_string_with(world);
     let norm_ms = Miniscript::<Ctx::Key, Ctx>::from_str_with_validation_params(&norm, &ValidationParams::MAX);
     match norm_ms {
